@@ -132,25 +132,27 @@ Proof.
   apply Rmult_le_reg_r with d; [lra|]. unfold Rdiv. rewrite Rmult_assoc, Rinv_l by lra. lra.
 Qed.
 
-Lemma seg_seg_sound (small : R) (a b c d : V) :
-  0 < small -> 0 < dotR (vsubR b a) (vsubR b a) -> 0 < dotR (vsubR d c) (vsubR d c) ->
+Lemma seg_seg_sound (a b c d : V) :
+  0 < dotR (vsubR b a) (vsubR b a) -> 0 < dotR (vsubR d c) (vsubR d c) ->
   exists dist2 cp1 cp2 sc tc,
-    seg_seg R RO small a b c d = Ok (dist2, cp1, cp2, sc, tc) /\
+    seg_seg R RO a b c d = Ok (dist2, cp1, cp2, sc, tc) /\
     0 <= sc <= 1 /\ 0 <= tc <= 1 /\
     cp1 = vaddR a (vscaleR sc (vsubR b a)) /\
     cp2 = vaddR c (vscaleR tc (vsubR d c)) /\
     dist2 = normsqR (vsubR cp1 cp2).
 Proof.
-  intros Hs H11 H22. unfold seg_seg. cbv zeta.
+  intros H11 H22. unfold seg_seg. cbv zeta.
   set (d1 := vsubR b a) in *. set (d2 := vsubR d c) in *. set (ds := vsubR a c).
-  pose proof (stage1_inv small (dotR d1 d1) (dotR d1 d2) (dotR d2 d2) (dotR d1 ds) (dotR d2 ds)
+  assert (Hs : 0 < n_mul R RO (n_mul R RO (n_atol R RO) (dotR d1 d1)) (dotR d2 d2)).
+  { cbn [n_mul n_atol RO]. apply Rmult_lt_0_compat; [apply Rmult_lt_0_compat; lra | lra]. }
+  pose proof (stage1_inv _ (dotR d1 d1) (dotR d1 d2) (dotR d2 d2) (dotR d1 ds) (dotR d2 ds)
                 Hs H22) as I1.
   destruct (stage2_inv (dotR d1 d1) (dotR d1 ds) _ H11 I1) as [I2 N2].
   destruct (stage3_inv (dotR d1 d1) (dotR d1 d2) (dotR d1 ds) _ H11 I2 N2) as [I3 N3].
   destruct (stage3 R RO _ _ _ _) as [[[sN sD] tN] tD].
   unfold inv_s in I3. destruct I3 as (Hsn & HsD & HtD).
-  destruct (ratio_unit small sN sD Hsn HsD) as (sc & Esc & Hsc).
-  destruct (ratio_unit small tN tD N3 HtD) as (tc & Etc & Htc).
+  destruct (ratio_unit (n_mul R RO (n_atol R RO) sD) sN sD Hsn HsD) as (sc & Esc & Hsc).
+  destruct (ratio_unit (n_mul R RO (n_atol R RO) tD) tN tD N3 HtD) as (tc & Etc & Htc).
   rewrite Esc, Etc.
   do 5 eexists. split; [reflexivity|]. split; [exact Hsc|]. split; [exact Htc|].
   split; [reflexivity|]. split; [reflexivity|].
@@ -158,26 +160,14 @@ Proof.
     d as [[e0 e1] e2]. rsimp30. ring.
 Qed.
 
-Lemma small_tol_pos (a b : V) (set : list (V * V)) :
-  0 < dotR (vsubR b a) (vsubR b a) ->
-  Forall (fun s => 0 < dotR (vsubR (snd s) (fst s)) (vsubR (snd s) (fst s))) set ->
-  0 < small_tol R RO a b set.
-Proof.
-  intros Ha Hall. unfold small_tol. cbv zeta. cbn [n_mul n_atol RO].
-  apply Rmult_lt_0_compat; [lra|].
-  induction Hall as [|s l Hs Hl IH]; cbn [fold_right]; [exact Ha|].
-  unfold tmin at 1. cbn [n_ltb RO]. destruct (Rltb _ _); [exact IH|exact Hs].
-Qed.
-
 Definition proper (s : V * V) : Prop := 0 < dotR (vsubR (snd s) (fst s)) (vsubR (snd s) (fst s)).
 
 Lemma seg_seg_set_sound (a b : V) (set : list (V * V)) :
   proper (a, b) -> Forall proper set ->
-  seg_seg_set R RO a b set
-    = map (fun s => seg_seg R RO (small_tol R RO a b set) a b (fst s) (snd s)) set /\
+  seg_seg_set R RO a b set = map (fun s => seg_seg R RO a b (fst s) (snd s)) set /\
   forall s, In s set ->
     exists dist2 cp1 cp2 sc tc,
-      seg_seg R RO (small_tol R RO a b set) a b (fst s) (snd s) = Ok (dist2, cp1, cp2, sc, tc) /\
+      seg_seg R RO a b (fst s) (snd s) = Ok (dist2, cp1, cp2, sc, tc) /\
       0 <= sc <= 1 /\ 0 <= tc <= 1 /\
       cp1 = vaddR a (vscaleR sc (vsubR b a)) /\
       cp2 = vaddR (fst s) (vscaleR tc (vsubR (snd s) (fst s))) /\
@@ -185,7 +175,6 @@ Lemma seg_seg_set_sound (a b : V) (set : list (V * V)) :
 Proof.
   intros Ha Hall. split; [reflexivity|]. intros s Hs.
   apply seg_seg_sound.
-  - apply small_tol_pos; auto.
   - exact Ha.
   - rewrite Forall_forall in Hall. exact (Hall s Hs).
 Qed.
